@@ -24,7 +24,8 @@ type Loaded struct {
 	sizes              types.Sizes
 	runtimeErrorString types.Type
 	initOrder          []*ssa.Package
-	stubCache          sync.Map // *ssa.Function -> stubFn or nil marker
+	initExtraPkg       map[*ssa.Package]bool // inits that only runs asking for them execute (plan's init_extra)
+	stubCache          sync.Map              // *ssa.Function -> stubFn or nil marker
 	repoFnCache        sync.Map
 	overlayFiles       map[string]string // virtual path -> real path
 }
@@ -99,7 +100,7 @@ func Load(repoDir, harnessDir string, patterns []string) (*Loaded, error) {
 	}
 	prog, _ := ssautil.AllPackages(pkgs, ssa.InstantiateGenerics|ssa.BareInits)
 	prog.Build()
-	ld := &Loaded{prog: prog, pkgs: pkgs, sizes: types.SizesFor("gc", "amd64"), overlayFiles: files}
+	ld := &Loaded{prog: prog, pkgs: pkgs, sizes: types.SizesFor("gc", "amd64"), overlayFiles: files, initExtraPkg: map[*ssa.Package]bool{}}
 	if rt := prog.ImportedPackage("runtime"); rt != nil {
 		ld.runtimeErrorString = rt.Type("errorString").Object().Type()
 	} else {
@@ -125,6 +126,11 @@ func Load(repoDir, harnessDir string, patterns []string) (*Loaded, error) {
 		if initAllowed(p.PkgPath) {
 			if sp := prog.Package(p.Types); sp != nil {
 				order = append(order, sp)
+				for _, w := range initExtra {
+					if w == p.PkgPath {
+						ld.initExtraPkg[sp] = true
+					}
+				}
 			}
 		}
 	}
